@@ -98,9 +98,18 @@ struct Scene {
             printf("ends %d", c.id);
             for (int e = 0; e < 2; ++e) {
                 const ConnEnd &E = e ? ce.second : ce.first;
-                if (E.type() == ConnEndShapePin && E.shape()) printf(" P %d %u", (int) E.shape()->id() - 10, E.pinClassId());
-                else if (E.type() == ConnEndJunction && E.junction()) printf(" J %d", (int) E.junction()->id() - 100);
-                else { Point q = E.position(); printf(" F %s %s", hx(q.x).c_str(), hx(q.y).c_str()); }
+                // the generator continues from the library's view of the attachment (it can differ
+                // from what was requested: class retarget-jmove), so that later steps stay legal
+                if (E.type() == ConnEndShapePin && E.shape()) {
+                    printf(" P %d %u", (int) E.shape()->id() - 10, E.pinClassId());
+                    c.e[e].kind = 'P'; c.e[e].obj = (int) E.shape()->id() - 10; c.e[e].cls = E.pinClassId();
+                } else if (E.type() == ConnEndJunction && E.junction()) {
+                    printf(" J %d", (int) E.junction()->id() - 100);
+                    c.e[e].kind = 'J'; c.e[e].obj = (int) E.junction()->id() - 100;
+                } else {
+                    Point q = E.position(); printf(" F %s %s", hx(q.x).c_str(), hx(q.y).c_str());
+                    c.e[e].kind = 'F'; c.e[e].x = q.x; c.e[e].y = q.y;
+                }
             }
             printf("\n");
             pts("route", c.id, c.ref->route());
@@ -315,6 +324,8 @@ int main(int argc, char **argv) {
         int nsteps = (int) (thorough ? r.range(2, 7) : r.range(1, 4));
         for (int st = 1; st <= nsteps; ++st) {
             int nops = (int) r.range(1, 2);
+            bool retargeted = false;     // at most one re-target per transaction: the library's view of the
+                                         // ends is read back only after the transaction (see observe())
             for (int o = 0; o < nops; ++o) {
                 int kind = (int) r.range(0, 23);
                 std::vector<int> liveShapes;
@@ -334,7 +345,9 @@ int main(int argc, char **argv) {
                     sc.router->moveJunction(j.ref, nx - j.x, ny - j.y);
                     j.x = nx; j.y = ny;
                 };
+                if (kind >= 20 && retargeted) continue;
                 if (kind >= 20) {
+                    retargeted = true;
                     // re-target one end of an existing connector (setSourceEndpoint / setDestEndpoint) to
                     // another shape's pin class, a junction or a free point, and IN THE SAME TRANSACTION
                     // move the object it was attached to and/or the new one (before or after the call)
